@@ -88,6 +88,9 @@ func setupCA() error {
 
 func e2eRun(p *Plan) (r *c10Result, probes map[string]int) {
 	r = &c10Result{rate: 1000}
+	if p.Cfg.Extra["rate0"] != 0 {
+		r.rate = 0
+	}
 	probes = map[string]int{}
 	fail := func(format string, a ...any) (*c10Result, map[string]int) {
 		r.infra = fmt.Sprintf(format, a...)
@@ -144,7 +147,7 @@ func e2eRun(p *Plan) (r *c10Result, probes map[string]int) {
 	done := make(chan error, 1)
 	go func() {
 		done <- bastion.FeedBastion(ctx, bastion.Config{Addr: ln.Addr().String(), Logs: logs, BastionKey: bkey, WitnessVerifier: witV,
-			Limits: bastion.RequestLimits{TotalPerSecond: rate.Limit(1000)}}, cw)
+			Limits: bastion.RequestLimits{TotalPerSecond: rate.Limit(r.rate)}}, cw)
 	}()
 	add := func(cls, sig, d string) {
 		r.reqs = append(r.reqs, &c10Req{Kind: "e2e:" + cls, Want: "e2e_violation", Status: -1, RBody: []byte(sig + ": " + d)})
@@ -308,6 +311,12 @@ func init() {
 			at := r.IntN(len(p.Ops) + 1)
 			p.Ops = append(p.Ops[:at:at], append([]Op{big}, p.Ops[at:]...)...)
 			p.Cfg.Extra = map[string]int64{"reconnect_at": int64(r.IntN(len(p.Ops)))}
+			if n%3 == 1 {
+				// configured rate 0: nothing is to be served (the limiter is built inside FeedBastion, so only this path sees it as shipped)
+				p.Cfg.Extra["rate0"] = 1
+				p.Ops = p.Ops[:min(4, len(p.Ops))]
+				p.Cfg.Extra["reconnect_at"] = -1
+			}
 			return p
 		},
 		Run: func(t *testing.T, p *Plan) *Outcome {
